@@ -822,6 +822,11 @@ func (ex *Exec) oblige(fr *Frame, st *State, kind, label, cond string, pos token
 		ex.assume(st.pc, cond)
 		return nil
 	}
+	if kind == "pre" && !ex.opts.Safety && !strings.Contains(label, "@call:") {
+		// panic conditions of library functions count as safety obligations
+		ex.assume(st.pc, cond)
+		return nil
+	}
 	base := ex.rootKey + "/" + kind
 	if label != "" {
 		base += ":" + label
